@@ -109,12 +109,43 @@ pub fn cmd_nest(args: &[String]) {
     let level_set: Vec<usize> = if deep { vec![1, 2, 8, 16, 31, 32, 40, 60, 61, 62, 63, 64, 65, 100, 120, 125, 126, 127, 128, 129, 200] } else { vec![2, 16, 42, 62, 63, 64, 126, 127, 128, 129] };
     let stacks: Vec<usize> = vec![8 << 20, 2 << 20];
     let (mut n, mut fine, mut crashed) = (0u64, 0u64, 0u64);
+    let mut hangs = 0u64;
     let mut classes = std::collections::BTreeMap::new();
     let mut samples = Vec::new();
     for shape in SHAPES {
         for &lv in &level_set {
             for &st in &stacks {
-                let p = Command::new(&exe).args(&["nest-child", shape, &lv.to_string(), &st.to_string()]).stdout(Stdio::piped()).stderr(Stdio::piped()).output().unwrap_or_else(|e| die(&format!("{}", e)));
+                if hangs >= 5 {
+                    continue; // a systematic hang was already reported: do not spend the time budget on it
+                }
+                let mut child = Command::new(&exe).args(&["nest-child", shape, &lv.to_string(), &st.to_string()]).stdout(Stdio::piped()).stderr(Stdio::piped()).spawn().unwrap_or_else(|e| die(&format!("{}", e)));
+                let t0 = std::time::Instant::now();
+                let mut timed_out = false;
+                loop {
+                    match child.try_wait() {
+                        Ok(Some(_)) => break,
+                        Ok(None) => {
+                            if t0.elapsed() > std::time::Duration::from_secs(20) {
+                                let _ = child.kill();
+                                timed_out = true;
+                                break;
+                            }
+                            std::thread::sleep(std::time::Duration::from_millis(2));
+                        }
+                        Err(_) => break,
+                    }
+                }
+                let p = child.wait_with_output().unwrap_or_else(|e| die(&format!("{}", e)));
+                if timed_out {
+                    n += 1;
+                    hangs += 1;
+                    crashed += 1;
+                    let (rt, _dt) = build(shape, lv);
+                    writeln!(out, "{}", json!({"kind": "hang", "why": format!("no result within 20 s evaluating shape {} with {} levels ({} bytes of rule text)", shape, lv, rt.len()),
+                        "sc": ["C01"], "rule": if rt.len() > 300 { format!("{}... (shape {}, {} levels)", &rt[..120], shape, lv) } else { rt }, "data": "",
+                        "expected": "a value or an error", "actual": "hang", "profile": crate::profile_name()})).unwrap();
+                    continue;
+                }
                 n += 1;
                 let so = String::from_utf8_lossy(&p.stdout).to_string();
                 let res = so.lines().filter(|l| l.starts_with("RESULT ")).last().map(|l| l[7..].to_string());
